@@ -19,7 +19,7 @@ EXPLANATION = (
     "NOT decided (numeric / history): that the stored metric value equals the reported one after map_reward, and the "
     "contents of the data set after arbitrary interleavings.")
 
-FLOOR = {"S1": 1, "S2": 3, "S3": 3, "S4": 3, "S5": 4, "S6": 4, "S7": 3, "S8": 1}
+FLOOR = {"S1": 1, "S2": 3, "S3": 3, "S4": 3, "S5": 6, "S6": 4, "S7": 3, "S8": 1}
 
 
 def s1_keepfilter(ctx, rep, clause="S1"):
@@ -313,6 +313,38 @@ def s4(ctx, rep):
                 "final result forwarded although resource <= largest_update_resource is possible (double observation)")
 
 
+def s5_pair(ctx, rep):
+    """(reported_result, keep_case) is one piece of state - 'the last case given to the searcher and whether it has to
+    stay': whoever writes one of them writes the other on the same paths.  A stale pair makes the next report remove a
+    rung-level observation (or keep a non-rung one)."""
+    P = ctx.P
+    pair = ("reported_result", "keep_case")
+    n = 0
+    for f in sorted(P.functions.values(), key=lambda f: f.qualname):
+        if not f.module.relpath.endswith("optimizer/schedulers/hyperband.py"):
+            continue
+        cfg = cfg_of(f)
+        st = {a: {nd.id for nd in cfg.nodes if nd.kind == "stmt" and isinstance(nd.ast, (ast.Assign, ast.AnnAssign))
+                  and any(isinstance(t, ast.Attribute) and t.attr == a for t in (nd.ast.targets if isinstance(nd.ast, ast.Assign) else [nd.ast.target]))}
+              for a in pair}
+        if not (st[pair[0]] or st[pair[1]]):
+            continue
+        n += 1
+        bad = None
+        for a, b in (pair, pair[::-1]):
+            for nid in st[a]:
+                # a path through this store that passes no store of the partner
+                if cfg.path(cfg.entry, nid, deleted=st[b]) is not None and \
+                        cfg.path([s_ for s_, l in cfg.succ[nid]], cfg.exit, deleted=st[b], skip_labels=("exc",)) is not None:
+                    bad = (a, b, cfg.nodes[nid].ast)
+        rep.put(bad is None, "S5", "paired_write", f"{f.short}: reported_result and keep_case are written together", f, bad[2] if bad else None, "",
+                f"`{bad[0] if bad else ''}` is written on a path that leaves `{bad[1] if bad else ''}` as it was: the pair (last case, keep it?) is "
+                "stale - with searcher_data='rungs_and_last' the next report removes a rung-level observation from the surrogate data "
+                "(or keeps a non-rung one)")
+    if n < 2:
+        raise AnchorError(f"C14-S5: only {n} writers of (reported_result, keep_case) found (on_trial_result and TrialInformation.restart confirmed)")
+
+
 def s5(ctx, rep):
     P = ctx.P
     f = P.method("HyperbandScheduler", "_update_searcher")
@@ -469,6 +501,7 @@ def run(ctx, rep, tier="quick"):
     s3(ctx, rep)
     s4(ctx, rep)
     s5(ctx, rep)
+    s5_pair(ctx, rep)
     s6(ctx, rep)
     s7(ctx, rep)
     s8(ctx, rep)
